@@ -104,7 +104,8 @@ def static_observation():
 
 def run(ctx):
     res = Result()
-    res.rule = ("complete enumeration: 16 option combinations x (no fault + every fault position) of the real "
+    res.rule = ("complete enumeration: 16 option combinations x (no fault + every fault position x 6 failure classes: private OSError, "
+                "PermissionError, FileNotFoundError, KeyError, ssl.SSLError, RuntimeError) of the real "
                 "initialize(), executed under substituted os/pwd/grp/socket/ssl calls; non-trivial = rows whose "
                 "trace contains at least one privilege-dropping call")
     res.assumptions = ["what the kernel does on chroot/setgroups/setregid/setreuid", "detach (fork) is not exercised",
@@ -114,10 +115,10 @@ def run(ctx):
         res.evaluations += 1
         names = [t[0] for t in r["trace"]]
         if any(n in PRIV for n in names):
-            res.nontrivial.add(json.dumps([r["tls"], r["chroot"], r["setuid"], r["setgid"], r["fault"]]))
+            res.nontrivial.add(json.dumps([r["tls"], r["chroot"], r["setuid"], r["setgid"], r["fault"], r.get("fclass", 0)]))
         res.count("fault" if r["fault"] is not None else "nofault")
         for key, what in judge(r):
-            cfg = {k: r[k] for k in ("tls", "chroot", "setuid", "setgid", "fault")}
+            cfg = {k: r.get(k, 0) for k in ("tls", "chroot", "setuid", "setgid", "fault", "fclass")}
             res.violation("C19:" + key, what, cfg, observed={"trace": r["trace"], "raised": r["raised"], "root_after": r["root_after"]},
                           required="bind, keys < chroot < chdir('/') < setgroups(()) < setregid < setreuid; failure aborts",
                           replay=cfg)
@@ -133,7 +134,7 @@ def run(ctx):
 def replay(data):
     cfg = data["violation"]["replay"]
     for r in rows():
-        if all(r[k] == cfg[k] for k in cfg):
+        if all(r.get(k, 0) == cfg[k] for k in cfg):
             print(json.dumps(r, indent=1))
             print("judgement:", judge(r))
     return 0
